@@ -12,6 +12,9 @@ EXTRA = {
     'C10': [('Props/C10/Basic.lean', 'Chess.Props.C10')],
     'C15': [('Props/C15/Basic.lean', 'Chess.Props.C15')],
     'C12': [('Props/C12/Basic.lean', 'Chess.Props.C12')],
+    'C13': [('Props/C13/Basic.lean', 'Chess.Props.C13'), ('Proofs/Minimax/Exact.lean', 'Chess.Proofs.Minimax')],
+    'C06': [('Props/C06/Sound.lean', 'Chess.Props.C06')],
+    'C17': [('Props/C17/Basic.lean', 'Chess.Props.C17')],
 }
 def names(path):
     s = open(path, encoding='utf-8').read()
@@ -23,11 +26,11 @@ for f in sorted(os.listdir(os.path.join(ROOT, 'Props'))):
         continue
     p = m.group(1)
     ns = f'Chess.Props.{p}'
-    out = [f'import ChessVerif.Props.{p}', f'open {ns}']
+    out = [f'import ChessVerif.Props.{p}'] + [f'import ChessVerif.{rel[:-5].replace("/", ".")}' for rel, _ in EXTRA.get(p, [])] + [f'open {ns}']
     for n in names(os.path.join(ROOT, 'Props', f)):
         out.append(f'#print axioms {n}')
     for rel, ens in EXTRA.get(p, []):
         for n in names(os.path.join(ROOT, rel)):
             out.append(f'#print axioms {ens}.{n}')
     open(os.path.join(ROOT, 'Audit', f'{p}.lean'), 'w').write('\n'.join(out) + '\n')
-    print(p, len(out) - 2)
+    print(p, len([x for x in out if x.startswith('#print')]))
